@@ -537,6 +537,215 @@ def extract_init_solve_seed(path, class_name):
     return seeds, fn.lineno
 
 
+# ---- the memo of the contour lines and its invalidation (-> OutCS.Cache, Gen/C08Cache.lean) ----------------------------
+def _is_self_attr(n, self_name, *path):
+    return pyexpr.attr_path(n) == [self_name, *path]
+
+
+def extract_contour_memo(path, class_name):
+    """shape of the `contour_lines` property -> ({"guarded": bool, "stored": bool}, [attribute paths of self it reads], lineno).
+    guarded: the FIRST statement is `if self._contour_lines [is not None]: return self._contour_lines`;
+    stored: `self._contour_lines = <not None>` occurs and the function ends in `return self._contour_lines`"""
+    tree = _parse(path)
+    cls = _find_class(tree, class_name)
+    fn = _find_func(cls.body, "contour_lines") if cls is not None else None
+    if fn is None:
+        raise Untranslatable(f"{class_name}.contour_lines not found")
+    self_name = fn.args.args[0].arg
+    body = [st for st in fn.body if not _docstring(st)]
+    guarded = stored = False
+    for i, st in enumerate(body):
+        if isinstance(st, ast.If):
+            t = st.test
+            plain = _is_self_attr(t, self_name, "_contour_lines")
+            notnone = isinstance(t, ast.Compare) and len(t.ops) == 1 and isinstance(t.ops[0], ast.IsNot) \
+                and _is_self_attr(t.left, self_name, "_contour_lines") and isinstance(t.comparators[0], ast.Constant) \
+                and t.comparators[0].value is None
+            if (plain or notnone) and not st.orelse and len(st.body) == 1 and isinstance(st.body[0], ast.Return) \
+                    and _is_self_attr(st.body[0].value, self_name, "_contour_lines"):
+                if i != 0:
+                    raise Untranslatable("memo guard of contour_lines is not the first statement")
+                guarded = True
+                continue
+            raise Untranslatable("if in contour_lines: " + ast.unparse(t)[:60])
+        if isinstance(st, ast.Assign) and len(st.targets) == 1 and _is_self_attr(st.targets[0], self_name, "_contour_lines"):
+            if isinstance(st.value, ast.Constant) and st.value.value is None:
+                raise Untranslatable("contour_lines drops its own memo")
+            stored = True
+    last = body[-1] if body else None
+    if stored and not (isinstance(last, ast.Return) and _is_self_attr(last.value, self_name, "_contour_lines")):
+        raise Untranslatable("contour_lines does not end in `return self._contour_lines`")
+    reads = []
+    for node in ast.walk(fn):
+        pth = pyexpr.attr_path(node) if isinstance(node, ast.Attribute) else None
+        if pth and pth[0] == self_name and pth[1] != "_contour_lines" and isinstance(getattr(node, "ctx", None), ast.Load):
+            dotted = ".".join(pth[1:])
+            if not any(r.startswith(dotted + ".") or r == dotted for r in reads):
+                reads = [r for r in reads if not dotted.startswith(r + ".")] + [dotted]
+    return {"guarded": guarded, "stored": stored}, sorted(reads), fn.lineno
+
+
+def extract_reevaluate(path, class_name):
+    """the body of `<class>.reevaluate_cache` as a list of ops, or None when the class does not define the method:
+       "super"  super().reevaluate_cache()          "roll"  self.roll.reevaluate_cache()
+       "reset"  self._contour_lines = None           "recompute"  HookHost's loop `for n in list(self.__cache__.keys()): ...
+                                                                  self.__cache__[n] = hook.get_result(self)`"""
+    tree = _parse(path)
+    cls = _find_class(tree, class_name)
+    if cls is None:
+        raise Untranslatable(f"class {class_name} not found in {os.path.basename(path)}")
+    fn = _find_func(cls.body, "reevaluate_cache")
+    if fn is None:
+        return None
+    self_name = fn.args.args[0].arg
+    ops = []
+    for st in fn.body:
+        if _docstring(st):
+            continue
+        if isinstance(st, ast.Expr) and isinstance(st.value, ast.Call) and not st.value.args and not st.value.keywords:
+            f = st.value.func
+            if isinstance(f, ast.Attribute) and f.attr == "reevaluate_cache" and isinstance(f.value, ast.Call) \
+                    and isinstance(f.value.func, ast.Name) and f.value.func.id == "super" and not f.value.args:
+                ops.append("super")
+                continue
+            if _is_self_attr(f, self_name, "roll", "reevaluate_cache"):
+                ops.append("roll")
+                continue
+        if isinstance(st, ast.Assign) and len(st.targets) == 1 and _is_self_attr(st.targets[0], self_name, "_contour_lines") \
+                and isinstance(st.value, ast.Constant) and st.value.value is None:
+            ops.append("reset")
+            continue
+        if isinstance(st, ast.For) and not st.orelse and isinstance(st.target, ast.Name) and _is_cache_keys(st.iter, self_name) \
+                and _recomputes(st.body, self_name, st.target.id):
+            ops.append("recompute")
+            continue
+        raise Untranslatable(f"statement in {class_name}.reevaluate_cache: " + ast.unparse(st)[:70])
+    return ops, fn.lineno
+
+
+def _is_cache_keys(n, self_name):
+    """`list(self.__cache__.keys())` / `self.__cache__.keys()` / `self.__cache__`"""
+    if isinstance(n, ast.Call) and isinstance(n.func, ast.Name) and n.func.id == "list" and len(n.args) == 1 and not n.keywords:
+        n = n.args[0]
+    if isinstance(n, ast.Call) and isinstance(n.func, ast.Attribute) and n.func.attr == "keys" and not n.args:
+        n = n.func.value
+    return _is_self_attr(n, self_name, "__cache__")
+
+
+def _recomputes(body, self_name, var):
+    """`hook = getattr(type(self), n)` then `self.__cache__[n] = hook.get_result(self)`, nothing else"""
+    if len(body) != 2:
+        return False
+    a, b = body
+    if not (isinstance(a, ast.Assign) and len(a.targets) == 1 and isinstance(a.targets[0], ast.Name) and isinstance(a.value, ast.Call)
+            and isinstance(a.value.func, ast.Name) and a.value.func.id == "getattr" and len(a.value.args) == 2
+            and isinstance(a.value.args[1], ast.Name) and a.value.args[1].id == var):
+        return False
+    hook = a.targets[0].id
+    return (isinstance(b, ast.Assign) and len(b.targets) == 1 and isinstance(b.targets[0], ast.Subscript)
+            and _is_self_attr(b.targets[0].value, self_name, "__cache__") and isinstance(b.targets[0].slice, ast.Name)
+            and b.targets[0].slice.id == var and isinstance(b.value, ast.Call) and isinstance(b.value.func, ast.Attribute)
+            and b.value.func.attr == "get_result" and isinstance(b.value.func.value, ast.Name) and b.value.func.value.id == hook
+            and len(b.value.args) == 1 and isinstance(b.value.args[0], ast.Name) and b.value.args[0].id == self_name)
+
+
+LOOP_CALLS = {("in_profile", "reevaluate_cache"): "inReeval", ("_solve_subunits",): "subunits", ("reevaluate_cache",): "selfReeval",
+              ("out_profile", "reevaluate_cache"): "outReeval", ("get_root_hook_results",): "rootHooks"}
+
+
+def extract_solve_loop(path, class_name="Unit"):
+    """`Unit.solve`: -> (calls of the loop body in source order, `self.init_solve(in_profile)` comes before the loop, lineno).
+    The loop is `for i in range(1, self.max_iteration_count)`; its convergence bookkeeping (`if np.all(...): ... break`,
+    `self._old_results = current_results`, logging) carries no op."""
+    tree = _parse(path)
+    cls = _find_class(tree, class_name)
+    fn = _find_func(cls.body, "solve") if cls is not None else None
+    if fn is None:
+        raise Untranslatable(f"{class_name}.solve not found")
+    self_name = fn.args.args[0].arg
+    loops = [st for st in fn.body if isinstance(st, ast.For)]
+    main = [st for st in loops if isinstance(st.iter, ast.Call) and isinstance(st.iter.func, ast.Name) and st.iter.func.id == "range"
+            and any(_is_self_attr(a, self_name, "max_iteration_count") for a in st.iter.args)]
+    if len(main) != 1:
+        raise Untranslatable("solution loop `for i in range(1, self.max_iteration_count)` not found")
+    loop = main[0]
+    init_first = False
+    for st in fn.body:
+        if st is loop:
+            break
+        if isinstance(st, ast.Expr) and isinstance(st.value, ast.Call) and _is_self_attr(st.value.func, self_name, "init_solve"):
+            init_first = True
+    steps = []
+    for st in loop.body:
+        call = None
+        if isinstance(st, ast.Expr) and isinstance(st.value, ast.Call):
+            call = st.value
+        elif isinstance(st, ast.Assign) and len(st.targets) == 1 and isinstance(st.targets[0], ast.Name) and isinstance(st.value, ast.Call):
+            call = st.value
+        if call is not None:
+            pth = pyexpr.attr_path(call.func)
+            if pth and pth[0] == self_name and tuple(pth[1:]) in LOOP_CALLS and not call.args and not call.keywords:
+                steps.append(LOOP_CALLS[tuple(pth[1:])])
+                continue
+            if _is_logging(st):
+                continue
+        if isinstance(st, ast.If) and not st.orelse and st.body and isinstance(st.body[-1], ast.Break) \
+                and all(_is_logging(b) for b in st.body[:-1]):
+            continue                      # convergence test
+        if isinstance(st, ast.Assign) and len(st.targets) == 1 and _is_self_attr(st.targets[0], self_name, "_old_results") \
+                and isinstance(st.value, ast.Name):
+            continue
+        raise Untranslatable("statement in the solution loop: " + ast.unparse(st)[:70])
+    return steps, init_first, fn.lineno
+
+
+def extract_init_solve_ops(path, class_name):
+    """`BaseRollPass.init_solve` statement by statement: "super" | "reset" (`self._contour_lines = None`) |
+    "seed" (`self.out_profile.cross_section = self.usable_cross_section`)"""
+    tree = _parse(path)
+    cls = _find_class(tree, class_name)
+    fn = _find_func(cls.body, "init_solve") if cls is not None else None
+    if fn is None:
+        raise Untranslatable(f"{class_name}.init_solve not found")
+    self_name = fn.args.args[0].arg
+    ops = []
+    for st in fn.body:
+        if _docstring(st):
+            continue
+        if isinstance(st, ast.Expr) and isinstance(st.value, ast.Call):
+            f = st.value.func
+            if isinstance(f, ast.Attribute) and f.attr == "init_solve" and isinstance(f.value, ast.Call) \
+                    and isinstance(f.value.func, ast.Name) and f.value.func.id == "super":
+                ops.append("super")
+                continue
+        if isinstance(st, ast.Assign) and len(st.targets) == 1:
+            if _is_self_attr(st.targets[0], self_name, "_contour_lines") and isinstance(st.value, ast.Constant) and st.value.value is None:
+                ops.append("reset")
+                continue
+            if _is_self_attr(st.targets[0], self_name, "out_profile", "cross_section") and _is_self_attr(st.value, self_name, "usable_cross_section"):
+                ops.append("seed")
+                continue
+        raise Untranslatable("statement in init_solve: " + ast.unparse(st)[:80])
+    return ops, fn.lineno
+
+
+def class_files(core_dir):
+    """top-level class name -> path, for every module of pyroll/core"""
+    out = {}
+    for root, _, files in os.walk(core_dir):
+        for f in sorted(files):
+            if f.endswith(".py"):
+                pth = os.path.join(root, f)
+                try:
+                    tree = _parse(pth)
+                except (SyntaxError, OSError):
+                    continue
+                for n in tree.body:
+                    if isinstance(n, ast.ClassDef):
+                        out.setdefault(n.name, pth)
+    return out
+
+
 def extract_refine(path):
     """`refine_cross_section`: must return its argument unchanged or `arg.segmentize(...)` -> list of the return kinds"""
     tree = _parse(path)
